@@ -342,7 +342,17 @@ def bind_ref_fields(ex, sh, obj, name, scen):
                 nf[fn_] = RefVal(Path(root))
             changed = True
         elif fs[0] == 'ptr' and isinstance(obj.f.get(fn_), Opaque):
-            nf[fn_] = PtrVal(None, z3.IntVal(0))
+            if fs[1][0] == 'struct':
+                # owning / shared pointer member of the receiver: assumed non-null, pointing to its own object
+                root = 'ext_%s_%s' % (name, fn_)
+                if root not in ex.store:
+                    v = sym_input(ex, fs[1], name + '.' + fn_)
+                    v = bind_ref_fields(ex, fs[1], v, name + '.' + fn_, scen)
+                    ex.store[root] = v
+                nf[fn_] = PtrVal(Path(root), None)
+                ex.assumed.add('pointer members of the receiver are non-null and point to objects of their static type')
+            else:
+                nf[fn_] = PtrVal(None, z3.IntVal(0))
             changed = True
     return SVal(obj.cls, nf) if changed else obj
 
